@@ -132,11 +132,24 @@ pub enum BuilderLimit {
     Limit(usize),
 }
 
+/// Lenient reader: replay files written before `BuilderLimit` existed hold `null` or a number.
+fn de_builder_limit<'de, D: serde::Deserializer<'de>>(d: D) -> Result<BuilderLimit, D::Error> {
+    let v = serde_json::Value::deserialize(d)?;
+    Ok(match v {
+        serde_json::Value::Null => BuilderLimit::Unset,
+        serde_json::Value::Number(n) => BuilderLimit::Limit(n.as_u64().unwrap_or(64) as usize),
+        serde_json::Value::String(s) if s == "Unlimited" => BuilderLimit::Unlimited,
+        serde_json::Value::String(_) => BuilderLimit::Unset,
+        serde_json::Value::Object(m) => m.get("Limit").and_then(serde_json::Value::as_u64).map_or(BuilderLimit::Unset, |n| BuilderLimit::Limit(n as usize)),
+        _ => BuilderLimit::Unset,
+    })
+}
+
 #[derive(Clone, Debug, Default, Serialize, Deserialize)]
 pub struct RunnerCfg {
     pub cli_concurrency: Option<usize>,
     /// Builder's `max_concurrent_scenarios`: not called (default 64), unlimited, or a limit.
-    #[serde(default)]
+    #[serde(default, deserialize_with = "de_builder_limit")]
     pub builder_concurrency: BuilderLimit,
     pub cli_retry: Option<usize>,
     pub builder_retries: Option<usize>,
